@@ -84,7 +84,7 @@ def Inv (l : IMAP) (pending : Option Nat) (w : World) : Prop :=
       (w.count : Int) + n ≤ l.maxMessageCountPerMailbox ∧ (w.uidNext : Int) + n ≤ l.maxUID
 
 theorem trace_within (l : IMAP) (hl : U32Limits l) (evs : List Ev) (p : Option Nat) (w : World)
-    (hinv : Inv l p w) (hp : NoImplicitParents evs) (hc : CheckThenInsert p evs) (hi : EvsInt64 evs) :
+    (hinv : Inv l p w) (hp : NoRenameParents evs) (hc : CheckThenInsert p evs) (hi : EvsInt64 evs) :
     ∀ w' ∈ trace l evs w, Within l w' := by
   induction evs generalizing p w with
   | nil => simp [trace]
@@ -93,7 +93,7 @@ theorem trace_within (l : IMAP) (hl : U32Limits l) (evs : List Ev) (p : Option N
     have hwu := hw
     unfold Within at hwu
     -- it suffices to re-establish the invariant for the next state
-    suffices hnext : ∃ p', Inv l p' (step l w e) ∧ NoImplicitParents rest ∧ CheckThenInsert p' rest ∧ EvsInt64 rest by
+    suffices hnext : ∃ p', Inv l p' (step l w e) ∧ NoRenameParents rest ∧ CheckThenInsert p' rest ∧ EvsInt64 rest by
       obtain ⟨p', hinv', hp', hc', hi'⟩ := hnext
       intro w' hw'
       simp only [trace, List.mem_cons] at hw'
@@ -107,7 +107,7 @@ theorem trace_within (l : IMAP) (hl : U32Limits l) (evs : List Ev) (p : Option N
       | insert s' =>
         simp only [CheckThenInsert] at hc
         obtain ⟨rfl, hc'⟩ := hc
-        refine ⟨none, ?_, by simpa [NoImplicitParents] using hp, hc', by simpa [EvsInt64] using hi⟩
+        refine ⟨none, ?_, by simpa [NoRenameParents] using hp, hc', by simpa [EvsInt64] using hi⟩
         simp only at hpass
         rcases hpass with hnil | ⟨n, hpn, h1, h2⟩
         · simp [step, hnil, Inv, hw]
@@ -117,6 +117,7 @@ theorem trace_within (l : IMAP) (hl : U32Limits l) (evs : List Ev) (p : Option N
           simp only [Int.natCast_add]
           omega
       | create _ => simp [CheckThenInsert] at hc
+      | renameParents _ => simp [CheckThenInsert] at hc
       | addTx _ => simp [CheckThenInsert] at hc
       | replaceTx _ _ => simp [CheckThenInsert] at hc
       | check _ _ => simp [CheckThenInsert] at hc
@@ -127,24 +128,29 @@ theorem trace_within (l : IMAP) (hl : U32Limits l) (evs : List Ev) (p : Option N
       cases e with
       | insert _ => simp [CheckThenInsert] at hc
       | create parents =>
-        simp only [NoImplicitParents] at hp
-        obtain ⟨rfl, hp'⟩ := hp
-        refine ⟨none, ?_, hp', by simpa [CheckThenInsert] using hc, by simpa [EvsInt64] using hi⟩
+        refine ⟨none, ?_, by simpa [NoRenameParents] using hp, by simpa [CheckThenInsert] using hc, by simpa [EvsInt64] using hi⟩
         simp only [step]
         split
         · rename_i hck
-          simp only [Option.isNone_iff_eq_none, checkMailBoxCount] at hck
+          simp only [Bool.and_eq_true, Option.isNone_iff_eq_none, checkMailBoxCount] at hck
+          obtain ⟨_, hck2⟩ := hck
           refine ⟨?_, by simpa using hpass⟩
           unfold Within
           simp only [Int.natCast_add]
-          split at hck
-          · simp at hck
+          split at hck2
+          · simp at hck2
           · simp only [Int.cast_ofNat_Int]
             omega
         · exact ⟨hw, hpass⟩
+      | renameParents parents =>
+        simp only [NoRenameParents] at hp
+        obtain ⟨rfl, hp'⟩ := hp
+        refine ⟨none, ?_, hp', by simpa [CheckThenInsert] using hc, by simpa [EvsInt64] using hi⟩
+        simp only [step]
+        exact ⟨by simpa using hw, by simpa using hpass⟩
       | addTx n =>
         simp only [EvsInt64] at hi
-        refine ⟨none, ?_, by simpa [NoImplicitParents] using hp, by simpa [CheckThenInsert] using hc, hi.2⟩
+        refine ⟨none, ?_, by simpa [NoRenameParents] using hp, by simpa [CheckThenInsert] using hc, hi.2⟩
         simp only [step]
         split
         · rename_i hck
@@ -156,7 +162,7 @@ theorem trace_within (l : IMAP) (hl : U32Limits l) (evs : List Ev) (p : Option N
         · exact ⟨hw, hpass⟩
       | replaceTx k n =>
         simp only [EvsInt64] at hi
-        refine ⟨none, ?_, by simpa [NoImplicitParents] using hp, by simpa [CheckThenInsert] using hc, hi.2⟩
+        refine ⟨none, ?_, by simpa [NoRenameParents] using hp, by simpa [CheckThenInsert] using hc, hi.2⟩
         simp only [step]
         split
         · rename_i hck
@@ -173,7 +179,7 @@ theorem trace_within (l : IMAP) (hl : U32Limits l) (evs : List Ev) (p : Option N
         · exact ⟨hw, hpass⟩
       | check s n =>
         simp only [EvsInt64] at hi
-        refine ⟨some s, ?_, by simpa [NoImplicitParents] using hp, by simpa [CheckThenInsert] using hc, hi.2⟩
+        refine ⟨some s, ?_, by simpa [NoRenameParents] using hp, by simpa [CheckThenInsert] using hc, hi.2⟩
         simp only [step]
         split
         · rename_i hck
@@ -183,14 +189,14 @@ theorem trace_within (l : IMAP) (hl : U32Limits l) (evs : List Ev) (p : Option N
         · refine ⟨hw, Or.inl ?_⟩
           simp [hpass]
       | remove k =>
-        refine ⟨none, ?_, by simpa [NoImplicitParents] using hp, by simpa [CheckThenInsert] using hc, by simpa [EvsInt64] using hi⟩
+        refine ⟨none, ?_, by simpa [NoRenameParents] using hp, by simpa [CheckThenInsert] using hc, by simpa [EvsInt64] using hi⟩
         simp only [step]
         refine ⟨?_, by simpa using hpass⟩
         unfold Within
         simp only
         omega
       | deleteMailbox =>
-        refine ⟨none, ?_, by simpa [NoImplicitParents] using hp, by simpa [CheckThenInsert] using hc, by simpa [EvsInt64] using hi⟩
+        refine ⟨none, ?_, by simpa [NoRenameParents] using hp, by simpa [CheckThenInsert] using hc, by simpa [EvsInt64] using hi⟩
         simp only [step]
         refine ⟨?_, by simpa using hpass⟩
         unfold Within
